@@ -305,7 +305,7 @@ theorem appSendHttp_inv (cfg : Cfg) (st : St) (g : Ws.Frag) (i : Nat) (m : Optio
         have hback : ∀ lib' : H11M.St, LibStep st.lib lib' → H11M.NotBad lib'.server → Inv { st with lib := lib' } g := by
           intro lib' hstep hnb
           refine inv_frame hI rfl rfl rfl hstep.idle (fun _ _ _ _ => Or.inr hnb) ?_ (hwait lib' hstep.wait)
-          intro j sw hcur hj _ _
+          intro _ j sw hcur hj _ _
           exfalso
           have : j = i := by have := hI.curLast j hcur; omega
           subst this
@@ -336,17 +336,24 @@ theorem appSendHttp_inv (cfg : Cfg) (st : St) (g : Ws.Frag) (i : Nat) (m : Optio
             exact hback _ hp.step (by rw [hp.raised hr]; exact herr)
           · simp only [hr, Bool.false_eq_true, if_false]
             rw [runHttp_tail]
-            have hf := libSend_facts (runHttpEvs cfg (st.setObj i (.http s')) pre).1 .eom
-            have hsh := libSend_shape (runHttpEvs cfg (st.setObj i (.http s')) pre).1 .eom
-            have hstep2 : LibStep st.lib (libSend (runHttpEvs cfg (st.setObj i (.http s')) pre).1 .eom).1.lib :=
-              hp.step.trans (libSend_step _ _)
-            by_cases hr2 : (libSend (runHttpEvs cfg (st.setObj i (.http s')) pre).1 .eom).2.2 = true
+            obtain ⟨L1, hL1⟩ : ∃ L, (runHttpEvs cfg (st.setObj i (.http s')) pre).1 = { (st.setObj i (.http s')) with lib := L } := ⟨_, hp.shape⟩
+            have hstep1 : LibStep st.lib L1 := by have := hp.step; rw [hL1] at this; exact this
+            rw [hL1]
+            obtain ⟨L2, hL2⟩ : ∃ L, (libSend { (st.setObj i (.http s')) with lib := L1 } .eom).1 =
+                { (st.setObj i (.http s')) with lib := L } := ⟨_, libSend_shape _ _⟩
+            have hf := libSend_facts { (st.setObj i (.http s')) with lib := L1 } .eom
+            have hstep2 : LibStep st.lib L2 := by
+              have := hstep1.trans (libSend_step { (st.setObj i (.http s')) with lib := L1 } .eom)
+              rw [hL2] at this; exact this
+            by_cases hr2 : (libSend { (st.setObj i (.http s')) with lib := L1 } .eom).2.2 = true
             · simp only [hr2, if_true]
-              rw [hsh, hp.shape, setObj_lib_back st i _ _ _ hobj]
-              exact hback _ hstep2 (by rw [hf.2.2.2.1 hr2]; exact herr)
+              have hsv := hf.2.2.2.1 hr2
+              rw [hL2] at hsv ⊢
+              rw [setObj_lib_back st i _ _ _ hobj]
+              exact hback _ hstep2 (by rw [hsv]; exact herr)
             · simp only [hr2, Bool.false_eq_true, if_false]
-              apply inv_maybeRecycle
-              rw [hsh, hp.shape]
+              apply inv_maybeRecycle (b := true)
+              rw [hL2]
               exact inv_setHttp hI i s s' _ hobj hlast.1 (by simp [hstc]) hcl (Or.inr fun h => hlast.2 (hstep2.idle h)) hstep2.idle
                 (fun hne => absurd hstc hne) (hwait _ hstep2.wait)
         | quit hcl =>
@@ -354,16 +361,417 @@ theorem appSendHttp_inv (cfg : Cfg) (st : St) (g : Ws.Frag) (i : Nat) (m : Optio
           exact inv_maybeRecycle hI
         | ending _ hcl hstc =>
           simp only [runHttpEvs, httpStreamSend]
+          obtain ⟨L2, hL2⟩ : ∃ L, (libSend (st.setObj i (.http s')) .eom).1 = { (st.setObj i (.http s')) with lib := L } := ⟨_, libSend_shape _ _⟩
           have hf := libSend_facts (st.setObj i (.http s')) .eom
-          have hsh := libSend_shape (st.setObj i (.http s')) .eom
-          have hstep : LibStep st.lib (libSend (st.setObj i (.http s')) .eom).1.lib := libSend_step _ _
+          have hstep : LibStep st.lib L2 := by
+            have := libSend_step (st.setObj i (.http s')) .eom
+            rw [hL2] at this; exact this
           by_cases hr : (libSend (st.setObj i (.http s')) .eom).2.2 = true
           · simp only [hr, if_true]
-            rw [hsh, setObj_lib_back st i _ _ _ hobj]
-            exact hback _ hstep (by rw [hf.2.2.2.1 hr]; exact herr)
+            have hsv := hf.2.2.2.1 hr
+            rw [hL2] at hsv ⊢
+            rw [setObj_lib_back st i _ _ _ hobj]
+            exact hback _ hstep (by rw [hsv]; exact herr)
           · simp only [hr, Bool.false_eq_true, if_false]
-            rw [hsh]
+            rw [hL2]
             exact inv_setHttp hI i s s' _ hobj hlast.1 (by simp [hstc]) hcl (Or.inr fun h => hlast.2 (hstep.idle h)) hstep.idle
               (fun hne => absurd hstc hne) (hwait _ hstep.wait)
+
+/-! ## WebSocket streams -/
+
+/-- stream events other than `StreamClosed` -/
+def WPlain : Ws.Ev → Prop
+  | .streamClosed => False
+  | _ => True
+
+structure PlainRunW (st : St) (r : St × List Out × Bool) : Prop where
+  shape : r.1 = { st with lib := r.1.lib }
+  step : LibStep st.lib r.1.lib
+  raised : r.2.2 = true → r.1.lib.server = .error
+
+theorem plainRunW_libSend (st : St) (e : LibSend) : PlainRunW st (libSend st e) :=
+  ⟨libSend_shape st e, libSend_step st e, (libSend_facts st e).2.2.2.1⟩
+
+theorem plainRunW_id (st : St) (o : List Out) : PlainRunW st (st, o, false) :=
+  ⟨rfl, LibStep.refl _, fun h => by cases h⟩
+
+theorem wsStreamSend_plain (cfg : Cfg) (st : St) (e : Ws.Ev) (h : WPlain e) : PlainRunW st (wsStreamSend cfg st e) := by
+  cases e with
+  | response status hs =>
+    simp only [wsStreamSend]
+    split
+    · exact plainRunW_libSend _ _
+    · exact plainRunW_libSend _ _
+  | body d => simp only [wsStreamSend]; exact plainRunW_libSend _ _
+  | endBody => simp only [wsStreamSend]; exact plainRunW_libSend _ _
+  | data _ => exact plainRunW_id _ _
+  | endData => exact plainRunW_id _ _
+  | streamClosed => exact absurd h id
+  | access a => exact plainRunW_id _ _
+  | spawnPings => exact plainRunW_id _ _
+  | spawnClose => exact plainRunW_id _ _
+
+theorem PlainRunW.comp {st : St} {r1 r2 : St × List Out × Bool} (h1 : PlainRunW st r1) (h2 : PlainRunW r1.1 r2)
+    (o : List Out) : PlainRunW st (r2.1, o, r2.2.2) := by
+  refine ⟨?_, h1.step.trans h2.step, h2.raised⟩
+  have a := h2.shape; have b := h1.shape
+  simp only at a b ⊢
+  rw [a, b]
+
+theorem runWs_plain (cfg : Cfg) : ∀ (evs : List Ws.Ev) (st : St), (∀ e ∈ evs, WPlain e) → PlainRunW st (runWsEvs cfg st evs) := by
+  intro evs
+  induction evs with
+  | nil => intro st _; exact plainRunW_id _ _
+  | cons e es ih =>
+    intro st h
+    have h1 := wsStreamSend_plain cfg st e (h e (by simp))
+    simp only [runWsEvs]
+    split
+    · rename_i hr; exact ⟨h1.shape, h1.step, fun _ => h1.raised hr⟩
+    · have h2 := ih (wsStreamSend cfg st e).1 (fun e' he' => h e' (by simp [he']))
+      exact h1.comp h2 _
+
+theorem runWsEvs_append (cfg : Cfg) : ∀ (a b : List Ws.Ev) (st : St),
+    runWsEvs cfg st (a ++ b) =
+      if (runWsEvs cfg st a).2.2 then runWsEvs cfg st a
+      else ((runWsEvs cfg (runWsEvs cfg st a).1 b).1, (runWsEvs cfg st a).2.1 ++ (runWsEvs cfg (runWsEvs cfg st a).1 b).2.1,
+            (runWsEvs cfg (runWsEvs cfg st a).1 b).2.2) := by
+  intro a
+  induction a with
+  | nil => intro b st; simp [runWsEvs]
+  | cons e es ih =>
+    intro b st
+    simp only [List.cons_append, runWsEvs]
+    by_cases hr : (wsStreamSend cfg st e).2.2 = true
+    · simp [hr]
+    · simp only [hr, Bool.false_eq_true, if_false]
+      rw [ih]
+      split <;> simp
+
+theorem firstRaisedWs_mem (cfg : Cfg) : ∀ (evs : List Ws.Ev) (st : St) (e : Ws.Ev), firstRaisedWs cfg st evs = some e → e ∈ evs := by
+  intro evs
+  induction evs with
+  | nil => intro st e h; simp [firstRaisedWs] at h
+  | cons x xs ih =>
+    intro st e h
+    simp only [firstRaisedWs] at h
+    split at h
+    · simp only [Option.some.injEq] at h; simp [h]
+    · simp [ih _ _ h]
+
+/-- a head sent from SEND_RESPONSE (with the upgrade proposal registered, as for a WebSocket request) is accepted by h11 -/
+theorem ws_response_accepted (cfg : Cfg) (st : St) (status : Nat) (hs : Headers) (h1 : st.lib.server = .sendResponse)
+    (h2 : st.lib.pendUpgrade = true) : (wsStreamSend cfg st (.response status hs)).2.2 = false := by
+  simp only [wsStreamSend]
+  split
+  · exact (libSend_response_ok st _ _ h1).1
+  · exact (libSend_info_ok st _ _ h1 (fun _ => h2)).1
+
+theorem denialHead_cases (s s1 : Ws.S) (status : Nat) (headers : Option (List (HV × HV))) (e1 : List Ws.Ev)
+    (h : Ws.denialHead s status headers = .ok (s1, e1)) :
+    (s.st = .handshake ∧ ∃ vh, s1 = { s with st := .response } ∧ e1 = [.response status vh]) ∨ (s.st ≠ .handshake ∧ s1 = s ∧ e1 = []) := by
+  unfold Ws.denialHead at h
+  split at h
+  · rename_i hst
+    split at h
+    · cases h
+    · split at h
+      · cases h
+      · simp only [Except.ok.injEq, Prod.mk.injEq] at h
+        exact Or.inl ⟨hst, _, h.1.symm, h.2.symm⟩
+  · rename_i hst
+    simp only [Except.ok.injEq, Prod.mk.injEq] at h
+    exact Or.inr ⟨hst, h.1.symm, h.2.symm⟩
+
+/-- `_send_rejection`: refused without any effect, or the (validated) head if still due, the body unless suppressed, and the
+    end of the body with the access record unless more is to come -/
+theorem sendRejection_cases (s : Ws.S) (body : Option HV) (more : Bool) :
+    ((Ws.sendRejection s body more).2.1 = [] ∧ (Ws.sendRejection s body more).1 = s) ∨
+    ∃ (status : Nat) (hdrs : Option (List (HV × HV))) (b : Bytes) (s1 : Ws.S) (e1 : List Ws.Ev),
+      Ws.denialHead s status hdrs = .ok (s1, e1) ∧
+      Ws.sendRejection s body more =
+        (if more then (s1, e1 ++ (if Extracted.Guards.suppressBody "GET" status then [] else [.body b]), none)
+         else ({ s1 with st := .httpClosed }, e1 ++ (if Extracted.Guards.suppressBody "GET" status then [] else [.body b]) ++ [.endBody, .access status], none)) := by
+  unfold Ws.sendRejection
+  split
+  · exact Or.inl ⟨rfl, rfl⟩
+  · exact Or.inl ⟨rfl, rfl⟩
+  · rename_i status hdrs _
+    split
+    · exact Or.inl ⟨rfl, rfl⟩
+    · rename_i b _
+      split
+      · exact Or.inl ⟨rfl, rfl⟩
+      · rename_i s1 e1 hd
+        exact Or.inr ⟨status, hdrs, b, s1, e1, hd, rfl⟩
+
+def isResponseEv : Ws.Ev → Bool
+  | .response _ _ => true
+  | _ => false
+
+/-- the events of `_send_rejection` from HANDSHAKE: nothing (the message was refused), or the response head followed by
+    events that are not heads -/
+theorem sendRejection_evs (s : Ws.S) (body : Option HV) (more : Bool) (hst : s.st = .handshake) :
+    (Ws.sendRejection s body more).2.1 = [] ∨
+    ∃ status vh rest, (Ws.sendRejection s body more).2.1 = .response status vh :: rest ∧ ∀ e ∈ rest, isResponseEv e = false := by
+  rcases sendRejection_cases s body more with h | ⟨status, hdrs, b, s1, e1, hd, heq⟩
+  · exact Or.inl h.1
+  · right
+    rcases denialHead_cases _ _ _ _ _ hd with ⟨_, vh, _, rfl⟩ | ⟨hne, _⟩
+    · rw [heq]
+      by_cases hm : more = true <;> by_cases hsb : Extracted.Guards.suppressBody "GET" status = true <;>
+        simp only [hm, hsb, if_true, if_false, Bool.false_eq_true] <;>
+        refine ⟨status, vh, _, rfl, ?_⟩ <;> intro e he <;> simp at he <;>
+        (first | (rcases he with rfl | rfl | rfl <;> rfl) | (rcases he with rfl | rfl <;> rfl) | (subst he; rfl) | skip)
+    · exact absurd hst hne
+
+/-- the plain events of a rejection, and that one which emitted something has left HANDSHAKE -/
+theorem sendRejection_plain (s : Ws.S) (body : Option HV) (more : Bool) :
+    (∀ e ∈ (Ws.sendRejection s body more).2.1, WPlain e) ∧
+    ((Ws.sendRejection s body more).1.st = .handshake → (Ws.sendRejection s body more).2.1 = []) := by
+  rcases sendRejection_cases s body more with h | ⟨status, hdrs, b, s1, e1, hd, heq⟩
+  · exact ⟨by rw [h.1]; simp, fun _ => h.1⟩
+  · have he1 : (∀ x ∈ e1, WPlain x) ∧ (s1.st = .handshake → False) := by
+      rcases denialHead_cases _ _ _ _ _ hd with ⟨_, vh, rfl, rfl⟩ | ⟨hne, rfl, rfl⟩
+      · exact ⟨by simp [WPlain], fun h => by simp at h⟩
+      · exact ⟨by simp, fun h => hne h⟩
+    rw [heq]
+    by_cases hm : more = true <;> by_cases hsb : Extracted.Guards.suppressBody "GET" status = true <;>
+      simp only [hm, hsb, if_true, if_false, Bool.false_eq_true]
+    · exact ⟨by simpa using he1.1, fun h => (he1.2 h).elim⟩
+    · refine ⟨?_, fun h => (he1.2 h).elim⟩
+      intro e he; simp at he; rcases he with he | rfl
+      · exact he1.1 e he
+      · trivial
+    · refine ⟨?_, fun h => by simp at h⟩
+      intro e he; simp at he; rcases he with he | rfl | rfl
+      · exact he1.1 e he
+      · trivial
+      · trivial
+    · refine ⟨?_, fun h => by simp at h⟩
+      intro e he; simp at he; rcases he with he | rfl | rfl | rfl
+      · exact he1.1 e he
+      · trivial
+      · trivial
+      · trivial
+
+/-- the two shapes of what `WSStream.app_send` hands to the protocol -/
+inductive WShape (s : Ws.S) : Ws.S → List Ws.Ev → Prop where
+  | plain (s' : Ws.S) (evs : List Ws.Ev) : (∀ e ∈ evs, WPlain e) → (s'.st = .handshake → evs = []) → WShape s s' evs
+  | closing (s' : Ws.S) (pre : List Ws.Ev) : (∀ e ∈ pre, WPlain e) → (s.st = .handshake → pre = Ws.errorResponse 500) →
+      WShape s s' (pre ++ [.streamClosed])
+
+theorem sendWs_evs (s : Ws.S) (o : Ws.WsOut) : ∀ e ∈ (Ws.sendWs s o).2.1, WPlain e := by
+  unfold Ws.sendWs
+  split
+  · simp
+  · split <;> simp [WPlain]
+
+theorem ws_appSend_shape (token : Bytes → Bytes) (ext : Option Bytes) (s : Ws.S) (m : Option Ws.Msg) :
+    WShape s (Ws.appSend token ext s m).1 (Ws.appSend token ext s m).2.1 := by
+  have hnil : ∀ s' : Ws.S, WShape s s' [] := fun s' => WShape.plain s' [] (by simp) (fun _ => rfl)
+  unfold Ws.appSend
+  by_cases hcl : s.closed = true
+  · rw [if_pos hcl]; exact hnil _
+  · rw [if_neg hcl]
+    cases m with
+    | none =>
+      simp only []
+      by_cases h1 : s.st = .handshake
+      · simp only [h1, if_true]
+        exact WShape.closing _ (Ws.errorResponse 500) (by simp [Ws.errorResponse, WPlain]) (fun _ => rfl)
+      · simp only [h1, if_false]
+        by_cases h2 : s.st = .connected
+        · simp only [h2, if_true]
+          have hp := sendWs_evs s (.close 1011)
+          rw [show Ws.sendWs s (.close 1011) = ((Ws.sendWs s (.close 1011)).1, (Ws.sendWs s (.close 1011)).2.1, (Ws.sendWs s (.close 1011)).2.2) from rfl]
+          simp only []
+          split
+          · refine WShape.plain _ _ hp ?_
+            intro h; rw [(Ws.sendWs_keeps s _).2.2.2.1, h2] at h; cases h
+          · exact WShape.closing _ _ hp (fun h => absurd h h1)
+        · simp only [h2, if_false]
+          exact WShape.closing s [] (by simp) (fun h => absurd h h1)
+    | some msg =>
+      cases msg with
+      | accept sp extra =>
+        simp only []
+        split
+        · split
+          · exact hnil _
+          · refine WShape.plain _ _ ?_ (fun h => by simp at h)
+            intro e he
+            simp only [List.mem_append, List.mem_cons, List.not_mem_nil, or_false] at he
+            rcases he with (he | he) | he
+            · simp [he, WPlain]
+            · simp [he, WPlain]
+            · split at he <;> simp at he; simp [he, WPlain]
+        · exact hnil _
+      | respStart status headers =>
+        simp only []
+        split
+        · exact hnil _
+        · exact hnil _
+      | respBody body more =>
+        simp only []
+        split
+        · -- `_send_rejection`
+          exact WShape.plain _ _ (sendRejection_plain s body more).1 (sendRejection_plain s body more).2
+        · exact hnil _
+      | send bytes text =>
+        simp only []
+        split
+        · split
+          · exact hnil _
+          · rename_i p _
+            refine WShape.plain _ _ (sendWs_evs s _) ?_
+            intro h
+            rename_i hconn _ _
+            rw [(Ws.sendWs_keeps s _).2.2.2.1, hconn] at h; cases h
+        · exact hnil _
+      | close code =>
+        simp only []
+        split
+        · exact WShape.plain _ _ (by simp [Ws.errorResponse, WPlain]) (fun h => by simp at h)
+        · split
+          · exact hnil _
+          · have hp := sendWs_evs { s with st := .closed } (.close (code.getD 1000))
+            rw [show Ws.sendWs { s with st := .closed } (.close (code.getD 1000)) =
+              ((Ws.sendWs { s with st := .closed } (.close (code.getD 1000))).1, (Ws.sendWs { s with st := .closed } (.close (code.getD 1000))).2.1,
+               (Ws.sendWs { s with st := .closed } (.close (code.getD 1000))).2.2) from rfl]
+            simp only []
+            split
+            · refine WShape.plain _ _ hp ?_
+              intro h; rw [(Ws.sendWs_keeps _ _).2.2.2.1] at h; cases h
+            · refine WShape.plain _ _ ?_ ?_
+              · intro e he
+                simp only [List.mem_append, List.mem_cons, List.not_mem_nil, or_false] at he
+                rcases he with he | he
+                · exact hp e he
+                · simp [he, WPlain]
+              · intro h; rw [(Ws.sendWs_keeps _ _).2.2.2.1] at h; cases h
+      | other => exact hnil _
+
+theorem appSendWs_fst (cfg : Cfg) (token : Bytes → Bytes) (ext : Option Bytes) (st : St) (i : Nat) (m : Option Ws.Msg) (s : Ws.S)
+    (hobj : st.objs[i]? = some (Stream.ws s)) :
+    (appSendWs cfg token ext st i m).1 =
+      if (runWsEvs cfg (st.setObj i (.ws (Ws.appSend token ext s m).1)) (Ws.appSend token ext s m).2.1).2.2 = true
+      then (runWsEvs cfg (st.setObj i (.ws (Ws.appSend token ext s m).1)) (Ws.appSend token ext s m).2.1).1.setObj i
+        (.ws (Ws.stateAtRaise m s (Ws.appSend token ext s m).1
+          (firstRaisedWs cfg (st.setObj i (.ws (Ws.appSend token ext s m).1)) (Ws.appSend token ext s m).2.1)))
+      else (runWsEvs cfg (st.setObj i (.ws (Ws.appSend token ext s m).1)) (Ws.appSend token ext s m).2.1).1 := by
+  unfold appSendWs
+  rw [hobj]
+  simp only []
+  by_cases h : (runWsEvs cfg (st.setObj i (.ws (Ws.appSend token ext s m).1)) (Ws.appSend token ext s m).2.1).2.2 = true
+  · simp [h]
+  · simp [h]
+
+theorem setObj_lib_set (st : St) (i : Nat) (a b : Stream) (lib' : H11M.St) :
+    ({ (st.setObj i a) with lib := lib' } : St).setObj i b = { st with objs := st.objs.set i b, lib := lib' } := by
+  simp [St.setObj, List.set_set]
+
+/-- a stream's own error response (a final, non-2xx head, then the end of the body) sent from SEND_RESPONSE is accepted by h11 -/
+theorem runWs_errorResponse_ok (cfg : Cfg) (st : St) (status : Nat) (h1 : st.lib.server = .sendResponse)
+    (hfin : Extracted.Guards.h11FinalStatusCmp.eval status 200 = true) (hns : ¬ (200 ≤ status ∧ status < 300)) :
+    (runWsEvs cfg st (Ws.errorResponse status)).2.2 = false := by
+  have hresp : ∀ hs, (libSend st (.response status hs)).2.2 = false ∧ (libSend st (.response status hs)).1.lib.server = .sendBody :=
+    fun hs => ⟨(libSend_response_ok st status hs h1).1, (libSend_response_ok st status hs h1).2.1 (fun h => hns h.2)⟩
+  simp only [Ws.errorResponse, runWsEvs, wsStreamSend, Proto.Heads.h11Response, hfin, if_true]
+  simp only [(hresp _).1, Bool.false_eq_true, if_false, libSend_eom_ok _ (hresp _).2]
+
+theorem runWs_streamClosed (cfg : Cfg) (st : St) :
+    runWsEvs cfg st [.streamClosed] = ((maybeRecycle st).1, (maybeRecycle st).2 ++ [], false) := by
+  simp [runWsEvs, wsStreamSend]
+
+/-- **a WebSocket application's `send` keeps the invariant** -/
+theorem appSendWs_inv (cfg : Cfg) (token : Bytes → Bytes) (ext : Option Bytes) (st : St) (g : Ws.Frag) (i : Nat) (m : Option Ws.Msg)
+    (hI : Inv st g) : Inv (appSendWs cfg token ext st i m).1 g := by
+  cases hobj : st.objs[i]? with
+  | none => simp [appSendWs, hobj]; exact hI
+  | some o =>
+    cases o with
+    | http s => simp [appSendWs, hobj]; exact hI
+    | ws s =>
+      rw [appSendWs_fst cfg token ext st i m s hobj]
+      by_cases hcl : s.closed = true
+      · have h1 : Ws.appSend token ext s m = (s, [], none) := by simp [Ws.appSend, hcl]
+        rw [h1]
+        simp [runWsEvs, St.setObj_self st i _ hobj]
+        exact hI
+      · have hcl' : s.closed = false := by simpa using hcl
+        have hcur : st.cur = some i := hI.openCur i _ hobj (by simpa [closedFlag] using hcl')
+        have hlast : i + 1 = st.objs.length := hI.curLast i hcur
+        obtain ⟨hwm, hok⟩ := hI.wsObj i s hobj
+        have hnidle : st.lib.client ≠ .idle := by
+          rcases hI.objs i _ hobj with h | h
+          · simp [Inert, hcl'] at h
+          · exact h.2
+        have hand0 : s.st = .handshake → st.lib.server = .sendResponse ∧ st.lib.pendUpgrade = true :=
+          fun h => hI.hand rfl i s hcur hobj h hcl'
+        have hkeep := Ws.appSend_keeps token ext s m hok
+        have hkeepR := fun at' => Ws.stateAtRaise_keeps token ext s m at' hok
+        have hshape := ws_appSend_shape token ext s m
+        -- the stream as it stands after a raise is not in HANDSHAKE
+        have hraise : ∀ (evs : List Ws.Ev), evs = (Ws.appSend token ext s m).2.1 → evs ≠ [] →
+            ((Ws.appSend token ext s m).1.st = .handshake → evs = []) →
+            (runWsEvs cfg (st.setObj i (.ws (Ws.appSend token ext s m).1)) evs).2.2 = true →
+            (Ws.stateAtRaise m s (Ws.appSend token ext s m).1 (firstRaisedWs cfg (st.setObj i (.ws (Ws.appSend token ext s m).1)) evs)).st ≠ .handshake := by
+          intro evs hevs hne hnil hr hst
+          have hs' : (Ws.appSend token ext s m).1.st ≠ .handshake := fun h => hne (hnil h)
+          unfold Ws.stateAtRaise at hst
+          split at hst
+          · simp at hst
+          · simp at hst
+          · exact hs' hst
+        generalize hs'eq : (Ws.appSend token ext s m).1 = s' at hshape hkeep hkeepR hraise ⊢
+        generalize hevseq : (Ws.appSend token ext s m).2.1 = evs at hshape hraise ⊢
+        cases hshape with
+        | plain =>
+          rename_i hpl hnil
+          have hp := runWs_plain cfg evs (st.setObj i (.ws s')) hpl
+          obtain ⟨L, hL⟩ : ∃ L, (runWsEvs cfg (st.setObj i (.ws s')) evs).1 = { (st.setObj i (.ws s')) with lib := L } := ⟨_, hp.shape⟩
+          have hstep : LibStep st.lib L := by have := hp.step; rw [hL] at this; exact this
+          by_cases hr : (runWsEvs cfg (st.setObj i (.ws s')) evs).2.2 = true
+          · rw [if_pos hr, hL, setObj_lib_set]
+            have hne : evs ≠ [] := by intro h; subst h; simp [runWsEvs] at hr
+            have hk := hkeepR (firstRaisedWs cfg (st.setObj i (.ws s')) evs)
+            exact inv_setWs hI i s _ L hobj hlast hk.2.1 (by rw [hk.1]; exact hI.buf i s hcur hobj) (fun h => by rw [← hk.2.2.1]; exact h)
+              (Or.inr fun h => hnidle (hstep.idle h)) hstep.idle (fun _ _ h _ => absurd h (hraise evs rfl hne hnil hr))
+          · rw [if_neg hr, hL]
+            refine inv_setWs hI i s s' L hobj hlast hkeep.2.1 (by rw [hkeep.1]; exact hI.buf i s hcur hobj) (fun h => by rw [← hkeep.2.2.1]; exact h)
+              (Or.inr fun h => hnidle (hstep.idle h)) hstep.idle ?_
+            intro _ _ h _
+            have hn := hnil h
+            subst hn
+            simp only [runWsEvs] at hL
+            have : L = st.lib := by
+              have := congrArg St.lib hL; simpa [St.setObj] using this.symm
+            rw [this]; exact hand0 (hkeep.2.2.2 h)
+        | closing =>
+          rename_i pre hpl hpre
+          have hp := runWs_plain cfg pre (st.setObj i (.ws s')) hpl
+          obtain ⟨L, hL⟩ : ∃ L, (runWsEvs cfg (st.setObj i (.ws s')) pre).1 = { (st.setObj i (.ws s')) with lib := L } := ⟨_, hp.shape⟩
+          have hstep : LibStep st.lib L := by have := hp.step; rw [hL] at this; exact this
+          -- from HANDSHAKE the 500 goes out without a raise
+          have hnoraise : s.st = .handshake → (runWsEvs cfg (st.setObj i (.ws s')) pre).2.2 = false := by
+            intro hst
+            rw [hpre hst]
+            exact runWs_errorResponse_ok cfg _ 500 (hand0 hst).1 (by decide) (by omega)
+          rw [runWsEvs_append, runWs_streamClosed]
+          by_cases hr : (runWsEvs cfg (st.setObj i (.ws s')) pre).2.2 = true
+          · simp only [hr, if_true]
+            rw [hL, setObj_lib_set]
+            have hk := hkeepR (firstRaisedWs cfg (st.setObj i (.ws s')) (pre ++ [.streamClosed]))
+            refine inv_setWs hI i s _ L hobj hlast hk.2.1 (by rw [hk.1]; exact hI.buf i s hcur hobj) (fun h => by rw [← hk.2.2.1]; exact h)
+              (Or.inr fun h => hnidle (hstep.idle h)) hstep.idle ?_
+            intro _ _ h _
+            have hst := hk.2.2.2 h
+            rw [hnoraise hst] at hr; cases hr
+          · simp only [hr, Bool.false_eq_true, if_false]
+            apply inv_maybeRecycle (b := false)
+            rw [hL]
+            exact inv_setWs hI i s s' L hobj hlast hkeep.2.1 (by rw [hkeep.1]; exact hI.buf i s hcur hobj) (fun h => by rw [← hkeep.2.2.1]; exact h)
+              (Or.inr fun h => hnidle (hstep.idle h)) hstep.idle (fun hb => by cases hb)
 
 end HC.Proto.H11
